@@ -68,6 +68,17 @@ CLAIMED = {
         "definite factors; sqrt(A)sqrt(A)=A and PSD-ness of the principal root are ASSUMED lemmas; exact arithmetic.",
    technique="contract-stubbed proxy execution; structure predicates (tril/triu/isperm) closed under kron/blockdiag as lemmas; z3/cvc5",
    engine="ALG"),
+ "C03": dict(
+   category="proof",
+   text="Every rule of dot/add/mul/kron/kronsum (live table; simplification rules included) must meet M(r) = the matrix expression, shape and "
+        "promoted dtype, and leave its arguments unmodified; the Python operators of LinearOperator (+, -, unary -, scalar * on both sides, / scalar, "
+        "scalar /) and sum() meet their contracts; Product/Sum constructors and A @ B raise exactly when shapes are incompatible; constructor "
+        "dtype promotion is checked exhaustively over the dtype enum.",
+   design_ref="4.3",
+   note="scalars are symbolic complex numbers (pairs of reals, uninterpreted products); arrays as operands are lazified by contract; "
+        "block_diag/lazify/densify/no_dispatch are covered through C01's kernels; exact arithmetic.",
+   technique="contract-stubbed proxy execution of rule bodies and operator methods; error clauses as exceptional postconditions; z3/cvc5",
+   engine="ALG"),
 }
 
 NOT_YET = "check not built yet in this session (framework under construction; see DESIGN.md section 10 for the order of work)"
